@@ -480,8 +480,14 @@ fn run_miri_tier(seed: u64, invocations: u64, programs: u64, miri_seeds: u64) ->
 }
 
 fn run_c20(args: &Args) -> i32 {
-    if let Err(e) = zonegen::self_check() {
-        harness_error(&format!("generator self-check failed: {e}"));
+    // The generator self-check creates zones from known bytes and compares
+    // the answers of those fresh handles with the values encoded in the
+    // bytes. For C20 a wrong answer there is not a harness problem but the
+    // property itself ("every live handle keeps answering queries
+    // correctly"), with known-answer inputs.
+    let mut selfcheck = zonegen::self_check();
+    if std::env::var("JIFFSIM_SKIP_CLAUSES").map_or(false, |s| s.split(',').any(|c| c == "answer_known")) {
+        selfcheck = Ok(()); // testing aid, never set by the registered commands
     }
     let tier = tier_from(args);
     let seed = seed_from(args);
@@ -506,6 +512,23 @@ fn run_c20(args: &Args) -> i32 {
     let mut violations = 0;
     let mut exit = 0;
     let mut extra = json!({});
+    if let Err(detail) = selfcheck {
+        let _ = std::fs::create_dir_all(&replay_dir);
+        let path = replay_dir.join(format!("C20-{seed}-known-answers.json"));
+        let _ = std::fs::write(
+            &path,
+            serde_json::to_string_pretty(&json!({
+                "property": "C20-known-answers", "clause": "answer_known", "detail": detail,
+            }))
+            .unwrap(),
+        );
+        println!("violated clause: answer_known");
+        println!("detail: a handle created from known TZif bytes answers wrongly: {detail}");
+        println!("VIOLATION property=C20 replay={}", path.display());
+        violations += 1;
+        exit = 1;
+        extra = json!({"violation": {"clause": "answer_known", "detail": detail, "replay": path}});
+    }
 
     // The deterministic sweep over every fixed offset.
     c20::warm_up();
@@ -556,6 +579,8 @@ fn run_c20(args: &Args) -> i32 {
     }
     let p = Arc::new(c20::C20);
     let wargs: Vec<String> = vec!["--prop".into(), "c20".into()];
+    // After a deterministic pre-check failed there is nothing to add.
+    let runs = if exit == 0 { runs } else { 64 };
     let mut res = driver::run_batch(p.clone(), &wargs, seed, tier, runs, budget, workers, want_fplog);
     if let Some(e) = &res.harness_error {
         harness_error(e);
@@ -772,6 +797,17 @@ fn run_replay(args: &Args) -> i32 {
             }
             Err(d) => {
                 println!("reproduced: clause=static_vs_heap {d}");
+                println!("VIOLATION property=C20 replay={path}");
+                1
+            }
+        },
+        "C20-known-answers" => match zonegen::self_check() {
+            Ok(()) => {
+                println!("replay of {path}: known-answer check clean");
+                0
+            }
+            Err(d) => {
+                println!("reproduced: clause=answer_known {d}");
                 println!("VIOLATION property=C20 replay={path}");
                 1
             }
